@@ -44,17 +44,24 @@ Pre == <<N("before"), I(1), X("def"), X("currentfile"), X("eexec")>>
 ZeroLines == [j \in 1..8 |-> I(0)]
 Trailer(k) == CASE k = "zeros" -> ZeroLines \o <<X("cleartomark")>>
                 [] k = "tokens" -> <<N("after"), I(2), X("def")>>
+                \* a second encrypted section in the same stream, then clear text again
+                [] k = "second" -> <<N("mid"), I(2), X("def"), X("currentfile"), X("eexec"),
+                                     N("c"), I(3), X("def"), I(5), X("string"), X("currentfile"), X("exch"), X("readstring"),
+                                     Raw(<<0, 255, 128, 97, 98>>), X("pop"), N("d"), X("exch"), X("def")>> \o Close
+                                   \o <<N("after2"), I(4), X("def")>>
                 [] OTHER -> <<>>
 
 Forms == {"bin", "hexlower", "hexupper", "hexmixed"}
-Classes(form) == IF form = "bin" THEN {"digit", "af", "AF", "blank", "other"} ELSE {"digit", "af", "AF"}
+\* "lowctl": NUL, form feed and other control bytes, and the delimiters % ( < / : none of them is
+\* one of the four characters the Type 1 book forbids as the first cipher byte
+Classes(form) == IF form = "bin" THEN {"digit", "af", "AF", "blank", "other", "lowctl"} ELSE {"digit", "af", "AF"}
 \* lead patterns that are legal for the form
-LegalLead(form, c) == IF form = "bin" THEN c[1] # "blank" /\ \E j \in 1..4 : c[j] \in {"blank", "other"}
+LegalLead(form, c) == IF form = "bin" THEN c[1] # "blank" /\ \E j \in 1..4 : c[j] \in {"blank", "other", "lowctl"}
                       ELSE /\ (form = "hexlower" => \A j \in 1..4 : c[j] # "AF")
                            /\ (form = "hexupper" => \A j \in 1..4 : c[j] # "af")
 WsPatterns == {"none", "every2", "lines64", "crlf7", "at4", "at5", "at6", "at7", "at9", "tabs3"}
 Blanks == {"sp", "lf", "crlf", "tabsplf"}
-Trailers == {"zeros", "tokens", "none"}
+Trailers == {"zeros", "tokens", "none", "second"}
 
 VARIABLES s, stim, phase
 vars == <<s, stim, phase>>
